@@ -109,7 +109,7 @@ CHECKS = {
  "C11": {
   "level": "model_checking",
   "technique": "TLC-enumerated lists of annotated lines x formats x rule-type options with the spec's reference list (relational clauses, M2); exhaustive boundary sliding + seeded grammar mutation recorded from the real parser and validated by a TLA+ trace spec (totality clause, thin spec)",
-  "text": "Relational clauses: TLC enumerates all lists of <=2 (quick) / <=3 lines from 42 lines whose outcome per format the spec knows by construction (network, cosmetic, 22 kinds of rejected lines, hosts entries incl. comments, localhost, three fields, invalid characters) x {standard, hosts} x {all, network-only, cosmetic-only}; the engine built from the list (three loading paths) must equal, on a 13-request + 3-page battery, the engine built with default options from the spec's reference lines (accepted lines, '||host^' for hosts entries), and the numbers of parsed rules must match. Totality: 8 multi-byte/whitespace characters slid across every character offset of 37 rule shapes (exhaustive), then seeded mutations/splices of those and of corpus lines, parsed under 4 option sets, loaded between two good lines, plus the 1024-byte metadata cut; list metadata (Title / Homepage / Redirect / Expires with its ranges, first occurrence wins, head-of-list cut) is part of the enumerated lines and compared for read_list_metadata and add_filter_list; Trace_C11 allows only the outcomes the options permit, never a panic, and requires rejected lines to leave the engine unchanged.",
+  "text": "Relational clauses: TLC enumerates all lists of <=2 (quick) / <=3 lines from 42 lines whose outcome per format the spec knows by construction (network, cosmetic, 22 kinds of rejected lines, hosts entries incl. comments, localhost, three fields, invalid characters) x {standard, hosts} x {all, network-only, cosmetic-only}; the engine built from the list (three loading paths) must equal, on a 13-request + 3-page battery, the engine built with default options from the spec's reference lines (accepted lines, '||host^' for hosts entries), and the numbers of parsed rules must match. The dispatch itself has a lexical model (MC_Classify: comment / network / cosmetic by byte-exact tests - one-byte lines, a second # within four BYTES of the first, $$, [Adblock headers - then the rule-type option): TLC enumerates all 111k (quick) / 1.1M lines of <=5/6 characters over a 10-symbol alphabet with a two-byte character and the class under each rule-type option is compared with parse_filter. Totality: 8 multi-byte/whitespace characters slid across every character offset of 37 rule shapes (exhaustive), then seeded mutations/splices of those and of corpus lines, parsed under 4 option sets, loaded between two good lines, plus the 1024-byte metadata cut; list metadata (Title / Homepage / Redirect / Expires with its ranges, first occurrence wins, head-of-list cut) is part of the enumerated lines and compared for read_list_metadata and add_filter_list; Trace_C11 allows only the outcomes the options permit, never a panic, and requires rejected lines to leave the engine unchanged.",
   "note": TB + "For the totality clause the specification only contributes the set of allowed outcomes (DESIGN.md section 8): the exploration strength is the generator's (level exploration for that clause).",
  },
  "C12": {
